@@ -42,6 +42,7 @@ type Ctx struct {
 	start    time.Time
 
 	validCache map[string]bool
+	noHash     bool
 }
 
 func (c *Ctx) Thorough() bool { return c.Tier == "thorough" }
@@ -84,6 +85,9 @@ func (c *Ctx) Max(name string, v int64) {
 		c.counters["max:"+name] = v
 	}
 }
+
+// DistinctN adds n cases that are distinct by construction (complete enumerations too large to hash).
+func (c *Ctx) DistinctN(n int64) { c.counters["distinct_by_construction"] += n }
 
 // Distinct records the hash of one distinct non-trivial case.
 func (c *Ctx) Distinct(h uint64) { c.distinct[h] = struct{}{} }
